@@ -435,6 +435,8 @@ func (e *Engine) modularCall(s *State, fr *Frame, c *FuncContract, key string, s
 	// havoc
 	w := newWriteSet()
 	if c.Flags["pure"] != "" {
+	} else if c.Flags["preserves"] != "" {
+		w.setAllExcept("preserves clause of "+shortKey(key), e.preservedKeys(c))
 	} else if c.Flags["assigns"] != "" {
 		for _, a := range c.Assigns {
 			e.resolveAssign(s, env, a, w)
@@ -757,6 +759,9 @@ func (e *Engine) applyAts(s *State, fr *Frame, anchor, when string, cc *ssa.Call
 			s.assume(t)
 		case "stop":
 			// the rest of the function is outside the clauses under proof on this root
+			if at.Clause.Tag != "" && currentPropID != "" && !strings.HasPrefix(at.Clause.Tag, currentPropID) {
+				break
+			}
 			s.dead = true
 		case "set":
 			env := e.mkEnv(s, fr, vars, vtypes)
